@@ -110,6 +110,7 @@ type BooleanDecoder struct {
 // SetBytes initializes the decoder with a new set of bytes to read from.
 // This must be called before calling any other methods.
 func (e *BooleanDecoder) SetBytes(b []byte) {
+	e.err = nil
 	if len(b) == 0 {
 		return
 	}
